@@ -31,7 +31,7 @@ func init() {
 		Run:          Run,
 		MaxSteps:     400000,
 		YieldFiles:   []string{"ss2022/stream.go", "ss2022/tcp.go"},
-		QuickRuns:    2400,
+		QuickRuns:    8000,
 		ThoroughSecs: 600,
 		Rule: "one run = one generated configuration (cipher, single/multi-user, prefixes, segmented-header allowance, target kind, " +
 			"initial payload length, per-side write-size and read-buffer scripts, copy paths, transport segmentation/latency/send-buffer knobs) " +
